@@ -37,7 +37,8 @@ META = {
     'text': 'TIMEX grammar/template agreement: assign_properties, interpreted on the group dictionary of every pattern '
             'shape, stores every group in a Timex field (int for digits) or uses it as unit selector, never raises, '
             'stores ISO designators in the right duration field; parse_string, interpreted on probe strings, hands '
-            'exactly the components to the regex tables; every '
+            'exactly the components to the regex tables; a Timex with one duration field set survives format -> '
+            'parse concretely (probe amounts incl. fractions); every '
             'TimexFormat template is a shape of the grammar and every grammar shape has a template (token-wise '
             'inclusion both ways, fixed_format_number(x,w) as \\d{w}); parse dispatch reaches every pattern family '
             'and its first-character / split-at-T routing is consistent with the patterns; from_date / '
@@ -730,7 +731,10 @@ class PEv:
             if name in b.attrs:
                 return b.attrs[name]
             if b.cls is not None and name in b.cls.methods:
-                return ('func', b.cls, b.cls.methods[name], b)
+                fn = b.cls.methods[name]
+                if any(chain(d) == 'property' for d in fn.decorator_list):
+                    return self.call_fn(b.cls, fn, [], {}, b, node)
+                return ('func', b.cls, fn, b)
             if b.cls is None:
                 return ('reccall', b, name)
             if b.cls is not None:
@@ -1154,6 +1158,55 @@ def rule_split(cx, chk, fams):
     chk.extra['parse_probes'] = len(probes)
 
 
+DURATION_PROBES = ('1', '5', '0.5', '90', '1.5', '10')
+
+
+def rule_duration(cx, chk):
+    """concrete round trip of durations: a Timex with exactly one duration field set is formatted by TimexFormat.format
+    and the string is parsed by TimexParsing.parse_string (both interpreted); the same field must come back"""
+    import decimal
+    tcls = cx.cls('timex', 'Timex')
+    fcls = cx.cls('timex_format', 'TimexFormat')
+    pcls = cx.cls('timex_parsing', 'TimexParsing')
+    fmt = cx.meth('timex_format', 'TimexFormat', 'format')
+    ps = cx.meth('timex_parsing', 'TimexParsing', 'parse_string')
+    init = cx.meth('timex', 'Timex', '__init__')
+    pnames = params_of(init)[1:]
+    defaults = dict(zip(pnames[len(pnames) - len(init.args.defaults):], init.args.defaults))
+    base = {p: d.value for p, d in defaults.items() if p != 'timex' and isinstance(d, ast.Constant)}
+    units = [f for unit in ISO_UNITS.values() for f in unit.values()]
+    for f in units:
+        if f not in base:
+            raise AnalysisError('Timex.__init__ has no duration field %r' % f)
+        bad = None
+        shown = None
+        for probe in DURATION_PROBES:
+            obj = Rec(tcls)
+            obj.attrs.update(base)
+            obj.attrs[f] = decimal.Decimal(probe)
+            try:
+                w = PEv(cx, fcls.mod).call_fn(fcls, fmt, [obj], {}, None, fmt)
+                back = Rec(tcls)
+                back.attrs.update(base)
+                if not isinstance(w, str):
+                    raise PyRaise('TypeError', 'format returned %r' % (w,))
+                PEv(cx, pcls.mod).call_fn(pcls, ps, [w, back], {}, None, ps)
+                got = {k: v for k, v in back.attrs.items() if v != base.get(k)}
+                same = set(got) == {f} and isinstance(got[f], (decimal.Decimal, int, float)) \
+                    and decimal.Decimal(str(got[f])) == decimal.Decimal(probe)
+                why = 'formats as %r, which parses back to %s' % (w, ', '.join('%s=%s' % kv for kv in sorted(
+                    got.items(), key=lambda kv: kv[0])) or 'nothing')
+            except PyRaise as ex:
+                same, why, w = False, 'raises %s' % ex, None
+            shown = shown or w
+            if not same and bad is None:
+                bad = (probe, why)
+        chk.judge(bad is None, 'C14.duration', fcls.mod.path, 'duration round trip: Timex(%s=<n>)' % f,
+                  'e.g. %s' % shown if bad is None else '%s=%s %s' % ((f,) + bad),
+                  'a Timex with %s=%s %s - the duration changes its unit or value on the way through its own string'
+                  % ((f,) + (bad or ('', ''))), fmt.lineno)
+
+
 def rule_groups_and_shapes(cx, chk):
     rcls, fams = load_patterns(cx)
     chk.extra['patterns'] = sum(len(v) for v in fams.values())
@@ -1273,7 +1326,32 @@ def obj_fields_read(test, obj):
     return sorted({n.attr for n in ast.walk(test) if isinstance(n, ast.Attribute) and chain(n.value) == obj})
 
 
-def load_templates(cx):
+def interpreted_templates(cx, c, name, fn, shapes):
+    """templates of one format_* function obtained by running it (abstract interpreter) on the object of every
+    grammar shape; outputs that render a missing field belong to objects the function is not meant for"""
+    init = cx.meth('timex', 'Timex', '__init__')
+    ps = params_of(init)[1:]
+    defaults = dict(zip(ps[len(ps) - len(init.args.defaults):], init.args.defaults))
+    defaults.pop('timex', None)
+    it = Interp(cx)
+    seen, out = set(), []
+    for s in shapes:
+        sets = {t.name: 'nz' for t in s.toks if t.kind == 'fld'}
+        sets.update({f: 'true' for f in s.flags})
+        obj = abstract_object(cx, defaults, sets)
+        r = it.call_fn(c, fn, [obj], c.mod, fn)
+        toks = r.toks if isinstance(r, TplV) else ([Tok('lit', text=r)] if isinstance(r, str) and r else [])
+        if not toks or any(t.kind == 'lit' and '<None of' in t.text for t in toks):
+            continue
+        nf = nf_tokens(toks)
+        if nf in seen:
+            continue
+        seen.add(nf)
+        out.append(Template(name, fn.lineno, toks, sorted(f for f, k in sets.items()), 'object of /%s/' % s.src))
+    return out
+
+
+def load_templates(cx, shapes=()):
     c = cx.cls('timex_format', 'TimexFormat')
     out = []
     empties = 0
@@ -1320,7 +1398,18 @@ def load_templates(cx):
                 else:
                     raise AnalysisError('%s:%d TimexFormat.%s: statement %s not modelled'
                                         % (c.mod.rel, st.lineno, name, type(st).__name__))
-        visit(fn.body, [], {})
+        mark = len(out)
+        try:
+            visit(fn.body, [], {})
+        except AnalysisError as why:
+            # not a plain sequence of guarded returns (loop over a table, ...): take the templates the function
+            # emits for the objects of the grammar's shapes instead
+            del out[mark:]
+            n_ret = 1
+            got = interpreted_templates(cx, c, name, fn, shapes)
+            if not got:
+                raise why
+            out.extend(got)
         if not n_ret:
             raise AnalysisError('TimexFormat.%s has no return' % name)
     if not out:
@@ -1388,7 +1477,7 @@ def align(tpl_toks, shape):
 # rules
 
 def rule_templates(cx, chk, shapes):
-    fcls, templates, fnames = load_templates(cx)
+    fcls, templates, fnames = load_templates(cx, shapes)
     matrix = {}
     for ti, t in enumerate(templates):
         for si, s in enumerate(shapes):
@@ -1978,6 +2067,9 @@ def run(chk):
     chk.rule('C14.split', 'parse_string, run on canonical probe strings (every shape alone, every date shape followed by '
                           'every time shape, every part-of-day code), hands exactly the components to the regex tables and '
                           'their groups to assign_properties', floor=12)
+    chk.rule('C14.duration', 'concrete round trip: a Timex with one duration field set (probe amounts incl. fractions) is '
+                             'formatted and parsed again by the interpreted code; the same field and amount come back',
+             floor=7)
     chk.rule('C14.falsy0', 'no truthiness test on hour/minute/second in TimexInference / TimexFormat', floor=3,
              control=True)
     chk.assume('digit groups hold valid calendar values (the checker does not bound month to 12 etc.); only hour, '
@@ -1993,6 +2085,7 @@ def run(chk):
     chk.extra['shapes'] = len(shapes)
     chk.extra['templates'] = len(templates)
     rule_split(cx, chk, fams)
+    rule_duration(cx, chk)
     chk._c14 = (cx, fams, shapes, templates)
     rule_roundtrip(chk)
 
@@ -2109,6 +2202,11 @@ class Interp:
                     return v.value
                 if e.attr in b.c.methods:
                     return ('method', b.c, b.c.methods[e.attr])
+                if v is not None:
+                    try:
+                        return ast.literal_eval(v)
+                    except (ValueError, SyntaxError):
+                        pass
                 self.err(mod, e, 'class attribute not a constant')
             if isinstance(b, set) and e.attr == 'add':
                 return ('setadd', b)
@@ -2196,13 +2294,19 @@ class Interp:
 
     def call(self, e, env, mod):
         f = e.func
-        # '<tpl>'.format(...)
-        if isinstance(f, ast.Attribute) and f.attr == 'format' and const_str(f.value) is not None:
+        # '<tpl>'.format(...)  (the template may be a literal or a value taken from a table)
+        tpl = None
+        if isinstance(f, ast.Attribute) and f.attr == 'format':
+            tpl = const_str(f.value)
+            if tpl is None:
+                base = self.ev(f.value, env, mod)
+                tpl = base if isinstance(base, str) else None
+        if tpl is not None:
             if e.keywords:
                 self.err(mod, e, 'keyword arguments to str.format')
             args = [self.ev(a, env, mod) for a in e.args]
             toks, auto = [], 0
-            for lit, fname, spec, conv in string.Formatter().parse(f.value.value):
+            for lit, fname, spec, conv in string.Formatter().parse(tpl):
                 if lit:
                     toks.append(Tok('lit', text=lit))
                 if fname is None:
@@ -2218,6 +2322,16 @@ class Interp:
         ch = chain(f) or ''
         if ch == 'set' and not e.args:
             return set()
+        if ch == 'getattr' and len(e.args) in (2, 3) and not e.keywords:
+            o = self.ev(e.args[0], env, mod)
+            nm = self.ev(e.args[1], env, mod)
+            if isinstance(o, ObjRef) and isinstance(nm, str):
+                if nm in o.fields:
+                    return o.fields[nm]
+                if len(e.args) == 3:
+                    return self.ev(e.args[2], env, mod)
+                self.err(mod, e, 'Timex has no field %r' % nm)
+            self.err(mod, e, 'getattr on something else than the object')
         if ch == 'len' and len(e.args) == 1:
             v = self.ev(e.args[0], env, mod)
             if isinstance(v, (set, frozenset, tuple, list, str)):
@@ -2271,6 +2385,20 @@ class Interp:
                 if isinstance(st.value, ast.Constant):
                     continue
                 self.ev(st.value, env, mod)
+            elif isinstance(st, ast.For) and not st.orelse:
+                it = self.ev(st.iter, env, mod)
+                if not isinstance(it, (tuple, list)) or len(it) > 200:
+                    self.err(mod, st, 'loop over something else than a literal table')
+                for v in it:
+                    if isinstance(st.target, ast.Name):
+                        env[st.target.id] = v
+                    elif isinstance(st.target, ast.Tuple) and all(isinstance(x, ast.Name) for x in st.target.elts) \
+                            and isinstance(v, (tuple, list)) and len(v) == len(st.target.elts):
+                        for x, vv in zip(st.target.elts, v):
+                            env[x.id] = vv
+                    else:
+                        self.err(mod, st, 'loop target')
+                    self.block(st.body, env, mod)
             elif isinstance(st, (ast.Pass, ast.Import, ast.ImportFrom)):
                 continue
             else:
